@@ -392,6 +392,7 @@ package shell_operator
 //@ trusted func (*Manager).GetHook
 //@   modifies nothing
 //@   ensures result != nil && result.Config != nil && result.HookController != nil && result.RateLimiter != nil && (result.Config.Version == "v0" || result.Config.Version == "v1")
+//@   ensures [assumed:admission-links-are-never-nil] result.HookController.AdmissionController != nil ==> forall(k, string, has(result.HookController.AdmissionController.AdmissionLinks, k) ==> result.HookController.AdmissionController.AdmissionLinks[k] != nil)
 //@ package github.com/flant/shell-operator/pkg/hook/controller
 //@ trusted func (*HookController).UnlockKubernetesEventsFor
 //@   modifies shell_operator.nUnlock, shell_operator.unlockIds
@@ -442,8 +443,6 @@ package shell_operator
 
 // ---- C14: the admission event handler installed by the operator fails closed -----------------
 //@ package github.com/flant/shell-operator/pkg/hook
-//@ trusted func (*Manager).HandleAdmissionEvent
-//@   modifies nothing
 //@ trusted func (*Manager).DetectAdmissionEventType
 //@   modifies nothing
 //@ package github.com/flant/shell-operator/pkg/shell-operator
@@ -454,7 +453,12 @@ package shell_operator
 //@ func (*ShellOperator).initValidatingWebhookManager$[op]
 //@   prop C14
 //@   requires op != nil && op.HookManager != nil
-//@   modifies lastFailedMsg, lastProp, lastTaskStatus, nTaskRuns
+//@   requires [assumed:hook-index-well-formed] forall(a, 0, len(op.HookManager.hooksInOrder["kubernetesValidating"]), op.HookManager.hooksInOrder["kubernetesValidating"][a] != nil && op.HookManager.hooksInOrder["kubernetesValidating"][a].Config != nil)
+//@   requires [assumed:hook-index-well-formed] forall(a, 0, len(op.HookManager.hooksInOrder["kubernetesValidating"]), forall(b, 0, len(op.HookManager.hooksInOrder["kubernetesValidating"]), a < b ==> op.HookManager.hooksInOrder["kubernetesValidating"][a].Name < op.HookManager.hooksInOrder["kubernetesValidating"][b].Name))
+//@   requires [assumed:hook-index-well-formed] forall(a, 0, len(op.HookManager.hooksInOrder["kubernetesMutating"]), op.HookManager.hooksInOrder["kubernetesMutating"][a] != nil && op.HookManager.hooksInOrder["kubernetesMutating"][a].Config != nil)
+//@   requires [assumed:hook-index-well-formed] forall(a, 0, len(op.HookManager.hooksInOrder["kubernetesMutating"]), forall(b, 0, len(op.HookManager.hooksInOrder["kubernetesMutating"]), a < b ==> op.HookManager.hooksInOrder["kubernetesMutating"][a].Name < op.HookManager.hooksInOrder["kubernetesMutating"][b].Name))
+//@   requires [assumed:index-slices-of-different-binding-types-do-not-share-storage] base(op.HookManager.hooksInOrder["kubernetesValidating"]) != base(op.HookManager.hooksInOrder["kubernetesMutating"]) || len(op.HookManager.hooksInOrder["kubernetesMutating"]) == 0
+//@   modifies lastFailedMsg, lastProp, lastTaskStatus, nTaskRuns, hook.nAdmCreate, hook.admCreateHook, allelems(*hook.Hook)
 //@   ensures [ran-once]     result1 == nil ==> nTaskRuns == old(nTaskRuns) + 1
 //@   ensures [fail-closed]  result1 == nil && result0 != nil && result0.Allowed ==> lastTaskStatus != "Fail" && dyntype(lastProp, *admission.Response) && result0 == lastProp.(*admission.Response)
 //@   ensures [task-failed]  nTaskRuns == old(nTaskRuns) + 1 && lastTaskStatus == "Fail" ==> result1 == nil && result0 != nil && !result0.Allowed
